@@ -9,7 +9,7 @@ From Coq Require Import List NArith ZArith Bool String Lia Permutation.
 From ApiFu Require Import Base.Sexp Gen.GoTypes Gen.ClientGenModel Gen.DecodeModel Gen.ClientGenSpec
      Gen.ClientGenLemmas Gen.ClientGenNames Gen.ClientGenProofs Gen.ClientGenMain Gen.ClientGenDecode Gen.ClientGenDeclSafe Gen.ClientGenFresh
      Gen.ClientGenAgree Gen.ClientGenDecodeS Gen.ClientGenNamesS Gen.ClientGenMainS Gen.ClientGenDeclSafeS
-     Gen.LoadSchemaModel Gen.LoadSchemaProofs Gen.ClientGenClauses Gen.ClientGenTopS.
+     Gen.LoadSchemaModel Gen.LoadSchemaProofs Gen.ClientGenClauses Gen.ClientGenTopS Gen.ClientGenWitness.
 Import ListNotations.
 Open Scope list_scope.
 
@@ -482,3 +482,24 @@ Proof.
   intros D S d H1 HL H2 H3 H4. destruct (real_s_wf D S d H1 HL H2 H3 H4) as [p [Hg Hw]].
   exists p. split; [exact Hg | apply wf_program_clauses; exact Hw].
 Qed.
+
+(** ** known finding blank-field-name: a name "_" is what [lex_names] excludes, and the output for it
+    is not well formed *)
+Lemma blank_member_not_lex S d : blank_member S d = true -> lex_names S d = false.
+Proof.
+  intros Hb. destruct (lex_names S d) eqn:E; [|reflexivity]. exfalso.
+  unfold lex_names in E. apply andb_true_iff in E as [E _]. apply andb_true_iff in E as [E _].
+  rewrite forallb_forall in E. unfold blank_member in Hb. apply mem_In in Hb.
+  specialize (E (bs "_") (in_or_app _ _ _ (or_intror Hb))). vm_compute in E. discriminate.
+Qed.
+
+(** query K { node { __typename ..._ } }  fragment _ on User { login } *)
+Definition docK11 : document :=
+  mkdoc [q "K" [F "node" [F "__typename" []; SP "_"]]]
+        [{| fr_name := bs "_"; fr_cond := bs "User"; fr_sels := [F "login" []] |}].
+
+Lemma refuted_blank_field_name :
+  env ex_schema docK11 = true /\ blank_member ex_schema docK11 = true /\
+  no_sel_names ex_schema docK11 = true /\ no_digit_types ex_schema = true /\ lex_names ex_schema docK11 = false /\
+  generated_and (generate_s ex_schema (doc_valid ex_schema docK11) docK11) (fun p => negb (wf_program p)) = true.
+Proof. repeat split; vm_compute; reflexivity. Qed.
